@@ -269,6 +269,7 @@ BUILTIN_EXC_PARENT = {
     "IndexError": "LookupError",
     "KeyError": "LookupError",
     "NameError": "Exception",
+    "UnboundLocalError": "NameError",
     "NotImplementedError": "RuntimeError",
     "RuntimeError": "Exception",
     "RecursionError": "RuntimeError",
